@@ -94,7 +94,7 @@ package traversal
 //@   requires within-the-fan-out-bound: op.outstanding < op.input.Alpha
 //@   modifies op.unqueried, op.queried, op.outstanding
 //@   callsite (*dht/traversal.Operation).markQueried no-address-is-queried-twice: !($addr.AddrPort.String() in op.queried)
-//@   callsite go:(*dht/traversal.Operation).startQuery$1 the-popped-contact-after-marking-it-queried: $a == old(op.unqueried.Next()) && (akey($a.Addr) in op.queried) && op.outstanding == old(op.outstanding) + 1
+//@   callsite go:(*dht/traversal.Operation).startQuery$1 the-popped-contact-after-marking-it-queried: $fv1 == old(op.unqueried.Next()) && (akey($fv1.Addr) in op.queried) && op.outstanding == old(op.outstanding) + 1
 //@   ensures inv: opinv(op) && wheld(op.mu)
 //@   ensures one-more-in-flight-per-query-spawned: (count("go:(*dht/traversal.Operation).startQuery$1") == 1 && op.outstanding == old(op.outstanding) + 1) || (count("go:(*dht/traversal.Operation).startQuery$1") == 0 && op.outstanding == old(op.outstanding))
 
@@ -117,17 +117,18 @@ package traversal
 //@   option records asked
 //@ func (*dht/traversal.Operation).startQuery$1@DoQuery
 //@   trusted
+//@   option records queryres
 //@ func dht/types.AddrMaybeIdSliceFromNodeInfoSlice
 //@   trusted
 //@ func (*dht/traversal.Operation).startQuery$1
-//@   requires spawned-with-a-filtered-contact: op != nil && op.input.DoQuery != nil && nodeok(op.input.NodeFilter, a)
+//@   requires spawned-with-a-filtered-contact: op != nil && op.input.DoQuery != nil && nodeok(op.input.NodeFilter, fv1)
 //@   requires holds-no-lock: !held(op.mu)
 //@   modifies *
-//@   callsite (dht/krpc.NodeAddrPort).ToNodeAddr the-spawned-contact: $me == a.Addr
+//@   callsite (dht/krpc.NodeAddrPort).ToNodeAddr the-spawned-contact: $me == fv1.Addr
 //@   callsite dynamic:DoQuery asks-the-address-it-was-spawned-with: $1 == recorded("asked") && count("call:dynamic:DoQuery") == 0
 //@   callsite dynamic:DoQuery the-context-the-watcher-cancels: $0 == ctx && count("go:(*dht/traversal.Operation).startQuery$1$2") == 1
 //@   callsite go:(*dht/traversal.Operation).startQuery$1$2 watches-this-query: $ctx == ctx && $cancel == cancel && $op == op && count("call:dynamic:DoQuery") == 0
-//@   callsite (*dht/traversal.Operation).startQuery$1$3 only-for-a-responder: res.ResponseFrom != nil
+//@   callsite (*dht/traversal.Operation).startQuery$1$3 only-for-a-responder: recorded("queryres").ResponseFrom != nil
 //@   callsite (*dht/traversal.Operation).startQuery$1$3 while-still-counted-in-flight: count("call:(*dht/traversal.Operation).startQuery$1$1") == 0
 //@   callsite (*dht/traversal.Operation).AddNodes while-still-counted-in-flight: count("call:(*dht/traversal.Operation).startQuery$1$1") == 0
 //@   ensures one-query: count("call:dynamic:DoQuery") == 1
@@ -155,10 +156,10 @@ package traversal
 
 // a responder is offered to the result set, under the lock, with the data of its own reply
 //@ func (*dht/traversal.Operation).startQuery$1$3
-//@   requires a-responder: op != nil && !held(op.mu) && res.ResponseFrom != nil
+//@   requires a-responder: op != nil && !held(op.mu) && fv1.ResponseFrom != nil
 //@   lockinv op.mu protects frontier-filtered: opinv(op)
 //@   modifies op.closest, op.stats.NumResponses
-//@   callsite (*dht/traversal.Operation).addClosest the-responder-with-its-own-data: $node == *res.ResponseFrom && $data == res.ClosestData && wheld(op.mu)
+//@   callsite (*dht/traversal.Operation).addClosest the-responder-with-its-own-data: $node == *fv1.ResponseFrom && $data == fv1.ClosestData && wheld(op.mu)
 //@   ensures unlocked: !held(op.mu)
 
 // ---- C02: what enters the result set ----
@@ -199,7 +200,7 @@ package traversal
 //@   modifies *
 //@   callsite (*dht/traversal.Operation).startQuery within-the-fan-out-bound: op.outstanding < op.input.Alpha && wheld(op.mu)
 //@   callsite (*dht/traversal.Operation).startQuery not-once-the-lookup-is-stopping: !recorded("closed")
-//@   callsite select-send:stalled stalled-only-when-nothing-is-in-flight-and-nothing-is-left-to-ask: stalled != nil ==> op.outstanding == 0 && (!recorded("havequery") || op.input.Alpha == 0)
+//@   callsite select-send stalled-only-when-nothing-is-in-flight-and-nothing-is-left-to-ask: $1 != nil ==> op.outstanding == 0 && (!recorded("havequery") || op.input.Alpha == 0)
 //@   loop 1
 //@     invariant inv: opinv(op) && wheld(op.mu)
 //@   loop 2
